@@ -478,6 +478,24 @@ theorem C08_shared_writer_witness :
       ([⟨0, Reuse.Shared.locateInPlace, 1⟩, ⟨1, Reuse.Shared.get, 2⟩].filter fun c => c.g = 1)).loc 1 = some 2 :=
   ⟨Reuse.Shared.locateInPlace_not_readOnly, Reuse.Shared.rooting_writer_breaks⟩
 
+/-- **why the rooted path must be a copy** (Go slice level, for every path, capacity and document): building the
+rooted path with `rx := x[:i]` + `append` RETURNS exactly what `make` + `copy` returns — a caller looking
+at its own result cannot tell — and leaves the caller-shared path itself rooted at this caller's
+document; that is a change of the shared object whenever the path holds a filter not already bound to
+that document -/
+theorem C08_rooted_path_must_be_copied (d : Nat) (mem : List Reuse.Shared.Frag) (n : Nat) (h : n ≤ mem.length) :
+    (Reuse.Shared.rootedInPlace d mem n).1 = Reuse.Shared.rootedCopy d (mem.take n) ∧
+    (Reuse.Shared.rootedInPlace d mem n).2 = Reuse.Shared.rootedCopy d (mem.take n) ++ mem.drop n ∧
+    (∀ r, r ≠ some d → Reuse.Shared.Frag.filter r ∈ mem.take n →
+      ((Reuse.Shared.rootedInPlace d mem n).2).take n ≠ mem.take n) :=
+  ⟨Reuse.Shared.rootedInPlace_result d mem n h, Reuse.Shared.rootedInPlace_mem d mem n,
+   fun r hr hf => Reuse.Shared.rootedInPlace_writes_shared d mem n h r hr hf⟩
+
+/-- the hypotheses are satisfiable: `$.items[?(@.v == $.want)].name` as parsed (length 4 = capacity), document 7 -/
+example : (4 : Nat) ≤ ([.child 0, .child 1, .filter none, .child 2] : List Reuse.Shared.Frag).length ∧
+    (none : Option Nat) ≠ some 7 ∧
+    Reuse.Shared.Frag.filter none ∈ ([.child 0, .child 1, .filter none, .child 2] : List Reuse.Shared.Frag).take 4 := by decide
+
 /-- the construction API of `jp.Expr` (`x.C("a").N(1)`: `return append(x, frag)`), which is not among the
 read-only entry points -/
 def jpBuildersExpected : List String :=
@@ -535,6 +553,24 @@ theorem C08_registered_lookup_read_only {F : Type} (c : Reuse.Shared.Comp F) :
   rw [reRegister_is_guarded]
   exact ⟨rfl, Reuse.Shared.recompInto_readOnly⟩
 
+/-- **filling a value of a type registered beforehand writes neither the registry map nor any entry**, for every
+registry and whoever owns the type's short name (nobody, the type itself, a same-named type of another
+package registered later): the look-up `recomp` makes, with the already-registered branch as the source
+has it (`reRegisterGuarded`, generated) -/
+theorem C08_registered_fill_no_write (r : Reuse.Shared.Regy) (t : Reuse.Shared.Ty) (h : r.Registered t) :
+    (Reuse.Shared.lookup reRegisterGuarded r t).1 = r := by
+  rw [reRegister_is_guarded]
+  exact Reuse.Shared.lookup_registered r t h
+
+/-- satisfiable, with the short name owned by the other twin -/
+example : Reuse.Shared.twins.Registered ⟨0, "RTwin", "reuse/RTwin"⟩ := ⟨0, ⟨0, some 9⟩, by decide, by decide, rfl⟩
+
+/-- seeded change C08-m8 at this level: the same look-up without the guard wipes the shadowed type's function -/
+theorem C08_registered_fill_unguarded_witness :
+    (Reuse.Shared.lookup false Reuse.Shared.twins ⟨0, "RTwin", "reuse/RTwin"⟩).1.ents = [⟨0, none⟩, ⟨1, none⟩] ∧
+    (Reuse.Shared.lookup true Reuse.Shared.twins ⟨0, "RTwin", "reuse/RTwin"⟩).1 = Reuse.Shared.twins :=
+  Reuse.Shared.lookup_unguarded_loses_fn
+
 /-- without the guard (seeded change C08-m8) the registered function is lost: after goroutine 0's
 Recompose into its own value goroutine 1's create-keyed map is no longer built by it -/
 theorem C08_reregister_unguarded_witness :
@@ -545,6 +581,11 @@ theorem C08_reregister_unguarded_witness :
       ([⟨0, Reuse.Shared.recompInto false, 1⟩, ⟨1, Reuse.Shared.recompCreate, 2⟩].filter fun c => c.g = 1)).loc 1 = some (2, true) :=
   ⟨rfl, Reuse.Shared.unguarded_reRegister_breaks⟩
 
+/-- **write inventory of a shared Converter** (generated): `(*Converter).Convert` and what it reaches write nothing
+through the receiver (the conversion functions are only ranged over; the caller's own data is converted in place) -/
+theorem shared_converter_write_inventory :
+    (Gen.SharedObj.converterSharedWrites.isEmpty && decide (2 ≤ Gen.SharedObj.converterReached)) = true := by decide
+
 /-- finding C08-asm-plan-lazy-compile is present in the source (flip to `false` when the proposed fix
 notes/proposed_fixes/C08_asm_plan_lazy_compile.md is applied) -/
 def planLazyCompile : Bool := true
@@ -554,11 +595,17 @@ called by the constructor `NewPlan`, by itself, and — DURING evaluation — by
 functions other than `NewPlan` that give a Fn an argument list that is a SLICE of somebody else's list
 instead of a copy are exactly `evalValue` (`af.Args = tv[1:]`) and `(*Fn).compile` (`af.Args = list[1:]`):
 the compile that follows writes into the plan being executed (the finding). With the fix both lists are
-copies and the list of aliases outside `NewPlan` is empty -/
+copies and the list of aliases outside `NewPlan` is empty. The same finding from the general write inventory
+(`asmSharedWrites`): in the 60+ functions reached from the `Eval` functions and `(*Plan).Execute` the ONLY write into
+the plan — through the argument parameters `args` / `arg` / `value`, an alias of them, or a receiver-writing method
+called on a local that holds such an alias in a field — is `af.compile()` in `evalValue` -/
 theorem shared_plan_lazy_compile :
     ((Gen.SharedObj.asmCompileCallers == ["Fn.compile", "NewPlan", "evalValue"]) &&
      ((Gen.SharedObj.asmArgsAliases.filter fun a => a.1 != "NewPlan") ==
-        (if planLazyCompile then [("Fn.compile", "af.Args", "list[1:]"), ("evalValue", "af.Args", "tv[1:]")] else []))) = true := by
+        (if planLazyCompile then [("Fn.compile", "af.Args", "list[1:]"), ("evalValue", "af.Args", "tv[1:]")] else [])) &&
+     decide (40 ≤ Gen.SharedObj.asmEvalReached) &&
+     (Gen.SharedObj.asmSharedWrites ==
+        (if planLazyCompile then [("asm.evalValue", "af.compile() with af.Args an alias of the plan's list", [])] else []))) = true := by
   decide
 
 end OjgVerif.C08
